@@ -102,12 +102,12 @@ type summary struct {
 }
 
 type runner struct {
-	F       *VFuncs
-	sum     *summary
-	ops     *bufio.Writer
-	index   *bufio.Writer
-	id      int
-	configs map[string]map[string]bool
+	F        *VFuncs
+	sum      *summary
+	ops      *bufio.Writer
+	index    *bufio.Writer
+	id       int
+	configs  map[string]map[string]bool
 	deadline time.Time
 }
 
@@ -323,6 +323,10 @@ func (r *runner) plan(sys string, thorough bool, rng *rand.Rand) error {
 		return nil
 	}
 	one := sys == "fmap" || sys == "dup"
+	// (0) nothing at all: zero inputs / no items, every interleaving (both tiers)
+	if err := each(ZeroConfigs(sys), 150000, false); err != nil {
+		return err
+	}
 	// (a) every interleaving, unreduced, for the smallest configurations
 	full := 3000
 	if thorough {
